@@ -466,6 +466,29 @@ def run_check(pid, tier, seed, replay=None):
     return exit_code
 
 
+class _PropLocks:
+    """one check of a property at a time: a check regenerates that property's Gen modules from the tree it is pointed
+    at (VERIF_REPO), builds them and runs the model driver on the build products - a concurrent run of the same property
+    against another tree (seeded changes, builder worktrees) would swap the generated files under it.  Checks of different
+    properties still run in parallel.  Locks are taken in sorted order (a module may name further properties whose
+    generated modules its theorems import: ALSO_LOCKS)."""
+    def __init__(self, pids):
+        self.pids = sorted(set(pids))
+        self.fs = []
+
+    def __enter__(self):
+        for p in self.pids:
+            f = open(os.path.join(LEAN_DIR, f".lock.{p}"), "w")
+            fcntl.flock(f, fcntl.LOCK_EX)
+            self.fs.append(f)
+        return self
+
+    def __exit__(self, *a):
+        for f in reversed(self.fs):
+            fcntl.flock(f, fcntl.LOCK_UN)
+            f.close()
+
+
 def main(argv):
     import argparse
     ap = argparse.ArgumentParser()
@@ -476,7 +499,10 @@ def main(argv):
     a = ap.parse_args(argv)
     seed = a.seed if a.seed is not None else int(os.environ.get("VERIF_SEED", "0") or 0)
     try:
-        return run_check(a.pid.upper(), a.tier, seed, a.replay)
+        pid = a.pid.upper()
+        mod = importlib.import_module(f"driver.props.{pid.lower()}")
+        with _PropLocks([pid] + list(getattr(mod, "ALSO_LOCKS", []))):
+            return run_check(pid, a.tier, seed, a.replay)
     except InfraError as e:
         print(f"INFRASTRUCTURE-ERROR {e}", file=sys.stderr)
         return 2
